@@ -13,6 +13,11 @@ import Mahotas.Proofs.C18Order3b
 import Mahotas.Proofs.C18BSplineW
 import Mahotas.Proofs.C18Interp
 import Mahotas.Proofs.C18Resize
+import Mahotas.Proofs.C18Interp45
+import Mahotas.Proofs.C18Border
+import Mahotas.Proofs.C18Shape
+import Mahotas.Proofs.C18Array
+import Mathlib.Analysis.SpecialFunctions.Pow.Real
 import Mathlib.Data.Rat.Floor
 import Mahotas.Proofs.Modes
 
@@ -844,3 +849,635 @@ theorem C18_mode_codes_agree (m : Mahotas.Mode) :
     (Mahotas.Generated.pyModes.lookup m.name = some m.code ∧ Mahotas.Generated.cppModes.lookup m.name = some m.code) ∧
     Mahotas.Generated.pyModes.length = 6 ∧ Mahotas.Generated.cppModes.length = 6 :=
   ⟨Mahotas.mode_codes_agree m, Mahotas.mode_tables_complete.1, Mahotas.mode_tables_complete.2.1⟩
+
+/-! ## Round 4 -/
+
+/-- **C18 (`interpolation_property`, orders 4 and 5, any rank).** The two-pole analogue of
+`C18_interpolation_property`. Let `c` be what the separable prefilter produces from the samples `f` (`prefilterNd`:
+along axis 0, then 1, …, every line goes through `lineFilterL w [z₁, z₂] ini`: `line *= w`, then for each pole the
+causal pass from `ini z len line` and the anti-causal pass — `onePole`, the recursions `filterLine` runs — the second
+pole on the output of the first), with exact poles (`zᵢ² + λᵢzᵢ + 1 = 0`; order 4: `λ₁+λ₂ = 76`, `λ₁λ₂ = 228`,
+`w = 384`; order 5: `λ₁+λ₂ = 26`, `λ₁λ₂ = 64`, `w = 120`), the exact mirror-symmetric initial values of every
+causal pass (`MirrorInit`), every axis of at least two samples (on lines of 2 and 3 samples some knots fold back twice:
+`twoPole_all_small`). Then `w` is the code's weight
+`(1−z₁)(1−1/z₁)(1−z₂)(1−1/z₂)` and at **every** output position whose mapped coordinates are an integer position `js`
+inside the array the whole `zoom_shift` model — start knot, the five (six) weights, the **two** mirror-folded knots
+per side, tensor sum — returns exactly `f js`. Any rank, any border mode. Not covered: approximate floating-point
+poles, the truncated initial sum on long lines. -/
+theorem C18_interpolation_property_order4_5 {K : Type} [Field K] [LinearOrder K] [IsStrictOrderedRing K]
+    {fl : K → Int} (h : IsFloor fl) (m : Mode) (cval : K) (order : Nat) (z1 z2 l1 l2 w : K)
+    (hord : (order = 4 ∧ l1 + l2 = 76 ∧ l1 * l2 = 228 ∧ w = 384) ∨
+      (order = 5 ∧ l1 + l2 = 26 ∧ l1 * l2 = 64 ∧ w = 120))
+    (h1 : z1 * z1 + l1 * z1 + 1 = 0) (h2 : z2 * z2 + l2 * z2 + 1 = 0)
+    (hz1 : z1 * z1 - 1 ≠ 0) (hz2 : z2 * z2 - 1 ≠ 0)
+    (ini : K → Nat → (Nat → K) → K) (im : Img K) (hshape : ∀ len ∈ im.shape, 2 ≤ len)
+    (hini : ∀ len ∈ im.shape, ∀ z, z = z1 ∨ z = z2 → ∀ s : Nat → K, MirrorInit z len s (ini z len s))
+    (f : List Int → K)
+    (hdata : ∀ pos, inside im.shape pos = true →
+      im.getD pos 0 = prefilterNd (lineFilterL w [z1, z2] ini) im.shape f pos)
+    (shifts zooms : List (Option K)) (p js : List Int) (hin : inside im.shape js = true)
+    (hc : coordsOf im.shape p shifts zooms = js.map fun (j : Int) => (j : K)) :
+    (1 - z1) * (1 - 1 / z1) * ((1 - z2) * (1 - 1 / z2)) = w ∧
+    pixel fl order m cval im shifts zooms p = f js := by
+  constructor
+  · rw [poleWeight_eq z1 l1 h1, poleWeight_eq z2 l2 h2]
+    rcases hord with ⟨_, hs, hp, rfl⟩ | ⟨_, hs, hp, rfl⟩ <;> linear_combination 2 * hs + hp
+  rw [pixel_at_integer fl order m cval im shifts zooms p js (fun len hl => by have := hshape len hl; omega) hin hc
+    _ hdata]
+  apply nested_prefilter fl order _ im.shape js f _ hin
+  intro len hlen s j h0 hj
+  rcases hord with ⟨rfl, hs, hp, rfl⟩ | ⟨rfl, hs, hp, rfl⟩
+  · rw [axisComb4 h]
+    have := line_inverts2 z1 z2 l1 l2 384 h1 h2 hz1 hz2 (by norm_num) ini len (hshape len hlen) (hini len hlen)
+      s j h0 hj
+    simp only [hs, hp] at this
+    linear_combination (1 / 384 : K) * this
+  · rw [axisComb5 h]
+    have := line_inverts2 z1 z2 l1 l2 120 h1 h2 hz1 hz2 (by norm_num) ini len (hshape len hlen) (hini len hlen)
+      s j h0 hj
+    simp only [hs, hp] at this
+    linear_combination (1 / 120 : K) * this
+
+/-- **C18 (orders 4 and 5 with the code's own initialisation).** The instance of
+`C18_interpolation_property_order4_5` for `ini z len = initFull z (z^(len−1)) len`, the closed form `spline_filter1d`
+uses on short lines: no hypothesis on the initial values is left. -/
+theorem C18_interpolation_property_order4_5_short_lines {K : Type} [Field K] [LinearOrder K]
+    [IsStrictOrderedRing K] {fl : K → Int} (h : IsFloor fl) (m : Mode) (cval : K) (order : Nat)
+    (z1 z2 l1 l2 w : K)
+    (hord : (order = 4 ∧ l1 + l2 = 76 ∧ l1 * l2 = 228 ∧ w = 384) ∨
+      (order = 5 ∧ l1 + l2 = 26 ∧ l1 * l2 = 64 ∧ w = 120))
+    (h1 : z1 * z1 + l1 * z1 + 1 = 0) (h2 : z2 * z2 + l2 * z2 + 1 = 0)
+    (hz1 : z1 * z1 - 1 ≠ 0) (hz2 : z2 * z2 - 1 ≠ 0)
+    (im : Img K) (hshape : ∀ len ∈ im.shape, 2 ≤ len)
+    (hP : ∀ len ∈ im.shape, ∀ z, z = z1 ∨ z = z2 → 1 - z ^ (len - 1) * z ^ (len - 1) ≠ 0)
+    (f : List Int → K)
+    (hdata : ∀ pos, inside im.shape pos = true →
+      im.getD pos 0
+        = prefilterNd (lineFilterL w [z1, z2] (fun z len s => initFull z (z ^ (len - 1)) len s)) im.shape f pos)
+    (shifts zooms : List (Option K)) (p js : List Int) (hin : inside im.shape js = true)
+    (hc : coordsOf im.shape p shifts zooms = js.map fun (j : Int) => (j : K)) :
+    pixel fl order m cval im shifts zooms p = f js := by
+  have hz0 : ∀ z, z = z1 ∨ z = z2 → z ≠ 0 := by
+    rintro z (rfl | rfl) rfl
+    · simp at h1
+    · simp at h2
+  exact (C18_interpolation_property_order4_5 h m cval order z1 z2 l1 l2 w hord h1 h2 hz1 hz2 _ im hshape
+    (fun len hl z hzz s => initFull_mirrorInit z (hz0 z hzz) len (by have := hshape len hl; omega) (hP len hl z hzz) s)
+    f hdata shifts zooms p js hin hc).2
+
+/-- non-vacuity of `lineFilterL`: on a 2-sample line over ℚ, two (non-root) values `1/2`, `1/3`, weight 2, initial
+    value `line[0]`: the filtered line is computed, and a one-sample line is returned as it is -/
+example : lineFilterL (2 : ℚ) [1 / 2, 1 / 3] (fun _ _ s => s 0) 2 (fun k => ((k + 1 : Nat) : ℚ)) 0 = 7 / 4 ∧
+    lineFilterL (2 : ℚ) [1 / 2, 1 / 3] (fun _ _ s => s 0) 1 (fun k => ((k + 1 : Nat) : ℚ)) 0 = 1 := by
+  constructor <;> norm_num [lineFilterL, onePole, anticausalRev, causal]
+
+/-- **C18 (integer coordinates anywhere: the border rule, orders 2 and 3, any rank).** Extension of
+`C18_interpolation_property` to sources **outside** the array. Same hypotheses on the coefficients (separable one-pole
+prefilter of `f`, exact pole, `MirrorInit` initial values), every axis of one sample (not filtered, all knots fold to
+it) or at least two. At **every** output position whose mapped
+coordinates are an integer vector `js` — anywhere, e.g. an integer shift larger than the array — the whole
+`zoom_shift` model (`mapCoord`: `std_like_round` + `fix_offset` for coordinates outside `[0, len−1]`, then start knot,
+weights, mirror-folded knots, tensor sum) returns `f` at the position the **mathematical border rule** of the mode
+(`specPos`: `borderSpec` coordinate-wise — clamp / modulo / reflect / mirror, `Model/Border.lean`) assigns to `js`,
+and `cval` when the mode flags an axis (`constant`, `ignore`): an integer shift is an exact translation with the border
+rule filling vacated pixels, for every mode, rank and both orders. -/
+theorem C18_interpolation_property_border {K : Type} [Field K] [LinearOrder K] [IsStrictOrderedRing K]
+    {fl : K → Int} (h : IsFloor fl) (m : Mode) (cval : K) (order : Nat) (lam z : K)
+    (hord : (order = 2 ∧ lam = 6) ∨ (order = 3 ∧ lam = 4))
+    (hz : z * z + lam * z + 1 = 0) (hz1 : z * z - 1 ≠ 0)
+    (ini : Nat → (Nat → K) → K) (im : Img K) (hshape : ∀ len ∈ im.shape, len = 1 ∨ 2 ≤ len)
+    (hini : ∀ len ∈ im.shape, 2 ≤ len → ∀ s : Nat → K, MirrorInit z len s (ini len s))
+    (f : List Int → K)
+    (hdata : ∀ pos, inside im.shape pos = true →
+      im.getD pos 0 = prefilterNd (lineFilter1 z (2 + lam) ini) im.shape f pos)
+    (shifts zooms : List (Option K)) (p js : List Int) (hl : js.length = im.shape.length)
+    (hc : coordsOf im.shape p shifts zooms = js.map fun (j : Int) => (j : K)) :
+    pixel fl order m cval im shifts zooms p
+      = match specPos m im.shape js with
+        | some js' => f js'
+        | none => cval := by
+  have hpos : ∀ len ∈ im.shape, 0 < len := fun len hl' => by have := hshape len hl'; omega
+  apply pixel_border_of_core h order m cval im shifts zooms p js hpos hl hc f
+  intro js' hin
+  rw [nestedSum_inside fl order im js' hpos hin _ hdata]
+  apply nested_prefilter fl order _ im.shape js' f _ hin
+  intro len hlen s j h0 h1
+  rcases hshape len hlen with rfl | hlen2
+  · -- an axis with a single sample: every knot folds to it, the weights sum to one, the line is not filtered
+    have hj : j = 0 := by omega
+    subst hj
+    rcases hord with ⟨rfl, rfl⟩ | ⟨rfl, rfl⟩
+    · rw [axisComb2 h]; simp only [edgeFold_one, lineFilter1]; norm_num; ring
+    · rw [axisComb3 h]; simp only [edgeFold_one, lineFilter1]; norm_num; ring
+  rcases hord with ⟨rfl, rfl⟩ | ⟨rfl, rfl⟩
+  · rw [axisComb2 h]
+    have := line_inverts z 6 hz hz1 (by norm_num) ini len hlen2 (hini len hlen hlen2) s j h0 h1
+    have e : edgeFold len j = j := edgeFold_inside len j h0 h1
+    rw [e] at this ⊢
+    linear_combination this
+  · rw [axisComb3 h]
+    have := line_inverts z 4 hz hz1 (by norm_num) ini len hlen2 (hini len hlen hlen2) s j h0 h1
+    have e : edgeFold len j = j := edgeFold_inside len j h0 h1
+    rw [e] at this ⊢
+    linear_combination this
+
+/-- **C18 (integer coordinates anywhere, orders 4 and 5).** The two-pole instance of
+`C18_interpolation_property_border` (hypotheses of `C18_interpolation_property_order4_5`): at any integer coordinate
+vector `js` the model returns `f` at the position the border rule assigns to `js`, or `cval`. -/
+theorem C18_interpolation_property_border_order4_5 {K : Type} [Field K] [LinearOrder K] [IsStrictOrderedRing K]
+    {fl : K → Int} (h : IsFloor fl) (m : Mode) (cval : K) (order : Nat) (z1 z2 l1 l2 w : K)
+    (hord : (order = 4 ∧ l1 + l2 = 76 ∧ l1 * l2 = 228 ∧ w = 384) ∨
+      (order = 5 ∧ l1 + l2 = 26 ∧ l1 * l2 = 64 ∧ w = 120))
+    (h1 : z1 * z1 + l1 * z1 + 1 = 0) (h2 : z2 * z2 + l2 * z2 + 1 = 0)
+    (hz1 : z1 * z1 - 1 ≠ 0) (hz2 : z2 * z2 - 1 ≠ 0)
+    (ini : K → Nat → (Nat → K) → K) (im : Img K) (hshape : ∀ len ∈ im.shape, len = 1 ∨ 2 ≤ len)
+    (hini : ∀ len ∈ im.shape, 2 ≤ len → ∀ z, z = z1 ∨ z = z2 → ∀ s : Nat → K, MirrorInit z len s (ini z len s))
+    (f : List Int → K)
+    (hdata : ∀ pos, inside im.shape pos = true →
+      im.getD pos 0 = prefilterNd (lineFilterL w [z1, z2] ini) im.shape f pos)
+    (shifts zooms : List (Option K)) (p js : List Int) (hl : js.length = im.shape.length)
+    (hc : coordsOf im.shape p shifts zooms = js.map fun (j : Int) => (j : K)) :
+    pixel fl order m cval im shifts zooms p
+      = match specPos m im.shape js with
+        | some js' => f js'
+        | none => cval := by
+  have hpos : ∀ len ∈ im.shape, 0 < len := fun len hl' => by have := hshape len hl'; omega
+  apply pixel_border_of_core h order m cval im shifts zooms p js hpos hl hc f
+  intro js' hin
+  rw [nestedSum_inside fl order im js' hpos hin _ hdata]
+  apply nested_prefilter fl order _ im.shape js' f _ hin
+  intro len hlen s j h0 hj
+  rcases hshape len hlen with rfl | hlen4
+  · have hj0 : j = 0 := by omega
+    subst hj0
+    rcases hord with ⟨rfl, hs, hp, rfl⟩ | ⟨rfl, hs, hp, rfl⟩
+    · rw [axisComb4 h]; simp only [edgeFold_one, lineFilterL]; norm_num; ring
+    · rw [axisComb5 h]; simp only [edgeFold_one, lineFilterL]; norm_num; ring
+  rcases hord with ⟨rfl, hs, hp, rfl⟩ | ⟨rfl, hs, hp, rfl⟩
+  · rw [axisComb4 h]
+    have := line_inverts2 z1 z2 l1 l2 384 h1 h2 hz1 hz2 (by norm_num) ini len hlen4 (hini len hlen hlen4)
+      s j h0 hj
+    simp only [hs, hp] at this
+    linear_combination (1 / 384 : K) * this
+  · rw [axisComb5 h]
+    have := line_inverts2 z1 z2 l1 l2 120 h1 h2 hz1 hz2 (by norm_num) ini len hlen4 (hini len hlen hlen4)
+      s j h0 hj
+    simp only [hs, hp] at this
+    linear_combination (1 / 120 : K) * this
+
+/-- **C18 (order 1 at integer coordinates anywhere, shift or zoom, any rank).** Without any prefilter: at every output
+position whose mapped coordinates are an integer vector `js` (an integer shift, a unit zoom, the corners of a zoom, an
+integer zoom ratio, …) the `zoom_shift` model at order 1 returns the input sample at the position the border rule
+assigns to `js` (`specPos`), or `cval`; axes of length 1 included. Generalises `C18_integer_shift_exact` (shifts only)
+to every coordinate map. -/
+theorem C18_order1_integer_coordinates {K : Type} [Field K] [LinearOrder K] [IsStrictOrderedRing K]
+    {fl : K → Int} (h : IsFloor fl) (m : Mode) (cval : K) (im : Img K) (hpos : ∀ len ∈ im.shape, 0 < len)
+    (shifts zooms : List (Option K)) (p js : List Int) (hl : js.length = im.shape.length)
+    (hc : coordsOf im.shape p shifts zooms = js.map fun (j : Int) => (j : K)) :
+    pixel fl 1 m cval im shifts zooms p
+      = match specPos m im.shape js with
+        | some js' => im.getD js' 0
+        | none => cval :=
+  pixel_border_of_core h 1 m cval im shifts zooms p js hpos hl hc (fun js' => im.getD js' 0)
+    (fun js' hin => core_order1 h im hpos js' hin)
+
+/-- non-vacuity of the border rule: on an axis of 4 samples the integer coordinate `−1` reads sample 1 in `mirror`
+mode, sample 0 in `nearest`, sample 3 in `wrap`, and is flagged in `constant` mode; coordinate 5 reads sample 2 in
+`reflect` mode -/
+example : specPos .mirror [4] [-1] = some [1] ∧ specPos .nearest [4] [-1] = some [0] ∧
+    specPos .wrap [4] [-1] = some [3] ∧ specPos .constant [4] [-1] = none ∧ specPos .reflect [4] [5] = some [2] := by
+  decide
+
+/-- **C18 (corners of `zoom`, any rank).** For every input shape and requested output shape of the same rank and every
+**corner** `p` of the output box (every index 0, or `n_out − 1` on an axis with at least two output samples —
+`IsCorner`), the full coordinate vector `zoom` maps `p` to is the corresponding corner of the input box (`cornerSrc`:
+0 ↦ 0, `n_out − 1 ↦ n_in − 1` on every axis), which lies inside the array; hence the entry of `zoom`'s result
+(`zoomGlue`, also what `resize_to` / `imresize` / `resize_rgb_to` return per channel) at `p` is
+* order 1: the input sample at that corner (no hypothesis);
+* orders 2, 3: `f` at that corner when the coefficients are the one-pole prefilter of `f`
+  (hypotheses of `C18_interpolation_property`);
+* orders 4, 5: likewise with the two-pole prefilter (hypotheses of `C18_interpolation_property_order4_5`).
+Corner samples go to corner samples, in every rank and for every mode. -/
+theorem C18_zoom_corners {K : Type} [Field K] [LinearOrder K] [IsStrictOrderedRing K]
+    {fl : K → Int} (h : IsFloor fl) (m : Mode) (cval : K) (im : Img K) (oshape : List Nat) (p : List Int)
+    (hrank : im.shape.length = oshape.length) (hcorner : IsCorner oshape p)
+    (hpos : ∀ len ∈ im.shape, 0 < len) (hopos : ∀ n ∈ oshape, 0 < n) :
+    coordsOf im.shape p (oshape.map fun _ => (none : Option K))
+        ((im.shape.zip oshape).map fun io => some (zoomFactor io.1 io.2 : K))
+      = (cornerSrc im.shape p).map (fun (j : Int) => (j : K)) ∧
+    inside im.shape (cornerSrc im.shape p) = true ∧
+    (zoomGlue fl 1 m cval im oshape).getD p 0 = im.getD (cornerSrc im.shape p) 0 ∧
+    (∀ (order : Nat) (lam z : K) (ini : Nat → (Nat → K) → K) (f : List Int → K),
+      ((order = 2 ∧ lam = 6) ∨ (order = 3 ∧ lam = 4)) → z * z + lam * z + 1 = 0 → z * z - 1 ≠ 0 →
+      (∀ len ∈ im.shape, 2 ≤ len) → (∀ len ∈ im.shape, ∀ s : Nat → K, MirrorInit z len s (ini len s)) →
+      (∀ pos, inside im.shape pos = true →
+        im.getD pos 0 = prefilterNd (lineFilter1 z (2 + lam) ini) im.shape f pos) →
+      (zoomGlue fl order m cval im oshape).getD p 0 = f (cornerSrc im.shape p)) ∧
+    (∀ (order : Nat) (z1 z2 l1 l2 w : K) (ini : K → Nat → (Nat → K) → K) (f : List Int → K),
+      ((order = 4 ∧ l1 + l2 = 76 ∧ l1 * l2 = 228 ∧ w = 384) ∨ (order = 5 ∧ l1 + l2 = 26 ∧ l1 * l2 = 64 ∧ w = 120)) →
+      z1 * z1 + l1 * z1 + 1 = 0 → z2 * z2 + l2 * z2 + 1 = 0 → z1 * z1 - 1 ≠ 0 → z2 * z2 - 1 ≠ 0 →
+      (∀ len ∈ im.shape, 2 ≤ len) →
+      (∀ len ∈ im.shape, ∀ z, z = z1 ∨ z = z2 → ∀ s : Nat → K, MirrorInit z len s (ini z len s)) →
+      (∀ pos, inside im.shape pos = true →
+        im.getD pos 0 = prefilterNd (lineFilterL w [z1, z2] ini) im.shape f pos) →
+      (zoomGlue fl order m cval im oshape).getD p 0 = f (cornerSrc im.shape p)) := by
+  have hc := coordsOf_corner (K := K) im.shape oshape p hrank hcorner
+  have hin := cornerSrc_inside im.shape oshape p hrank hcorner hpos
+  have hpin := isCorner_inside oshape p hcorner hopos
+  have hget : ∀ order, (zoomGlue fl order m cval im oshape).getD p 0
+      = pixel fl order m cval im (oshape.map fun _ => none)
+          ((im.shape.zip oshape).map fun io => some (zoomFactor io.1 io.2)) p := by
+    intro order
+    unfold zoomGlue zoomShift
+    exact tabulate_getD' _ _ _ _ hpin
+  refine ⟨hc, hin, ?_, ?_, ?_⟩
+  · rw [hget, pixel_at_integer fl 1 m cval im _ _ p _ hpos hin hc (fun pos => im.getD pos 0) (fun _ _ => rfl)]
+    exact core_order1 h im hpos _ hin
+  · intro order lam z ini f hord hz hz1 hshape hini hdata
+    rw [hget]
+    exact C18_interpolation_property h m cval order lam z hord hz hz1 ini im hshape hini f hdata _ _ p _ hin hc
+  · intro order z1 z2 l1 l2 w ini f hord h1 h2 hz1 hz2 hshape hini hdata
+    rw [hget]
+    exact (C18_interpolation_property_order4_5 h m cval order z1 z2 l1 l2 w hord h1 h2 hz1 hz2 ini im hshape hini f
+      hdata _ _ p _ hin hc).2
+
+/-- non-vacuity: `(2, 0)` is a corner of a `3 × 2` output box and corresponds to the corner `(4, 0)` of a `5 × 7`
+input box -/
+example : IsCorner [3, 2] [2, 0] ∧ cornerSrc [5, 7] [2, 0] = [4, 0] := by
+  constructor
+  · simp [IsCorner]
+  · rfl
+
+/-- **C18 (the output shape of `zoom` / `imresize` by factor).** `zoomOutShape` is `interpolate.zoom`'s
+`output_shape = tuple([int(s * z) for s, z in zip(array.shape, zoom)])` (`int` truncates toward zero: `truncI`; Python's
+`round` is **not** involved) after the length check; `none` = the call raises. Over an ordered field with a floor
+function, for every shape:
+(1) a factor vector of the wrong length raises; (2) non-negative factors never raise; (3) a successful call returns one
+length per axis, each `int(s_r · z_r)`; (4) for `z ≥ 0` that length is `⌊s·z⌋`: `len ≤ s·z < len + 1`; (5) it is
+monotone in the factor; (6) the factor 1 (broadcast to every axis) asks for the input's own shape; (7) natural factors
+`k_r` ask for the exact multiples `s_r·k_r`; (8) `zoomByFactor` (hence `imresizeFactor`) returns `zoom`'s result onto
+exactly that shape — everything proved about `zoomGlue` (coordinate map, corners, interpolation) applies. -/
+theorem C18_zoom_output_shape {K : Type} [Field K] [LinearOrder K] [IsStrictOrderedRing K]
+    {fl : K → Int} (h : IsFloor fl) (shape : List Nat) :
+    (∀ zs : List K, zs.length ≠ shape.length → zoomOutShape fl shape zs = none) ∧
+    (∀ zs : List K, zs.length = shape.length → (∀ z ∈ zs, 0 ≤ z) → ∃ os, zoomOutShape fl shape zs = some os) ∧
+    (∀ (zs : List K) (os : List Nat), zoomOutShape fl shape zs = some os →
+      os.length = shape.length ∧ os.map (fun (o : Nat) => (o : Int)) = List.zipWith (zoomOutLen fl) shape zs) ∧
+    (∀ (s : Nat) (z : K), 0 ≤ z →
+      0 ≤ zoomOutLen fl s z ∧ ((zoomOutLen fl s z : Int) : K) ≤ (s : K) * z ∧
+        (s : K) * z < ((zoomOutLen fl s z : Int) : K) + 1) ∧
+    (∀ (s : Nat) (z z' : K), z ≤ z' → zoomOutLen fl s z ≤ zoomOutLen fl s z') ∧
+    zoomOutShape fl shape (zoomFactors shape.length true [(1 : K)]) = some shape ∧
+    (∀ ks : List Nat, ks.length = shape.length →
+      zoomOutShape fl shape (ks.map fun (k : Nat) => (k : K)) = some (List.zipWith (· * ·) shape ks)) ∧
+    (∀ (pre : Img K → Img K) (order : Nat) (m : Mode) (cval : K) (im : Img K) (scalar : Bool) (zs : List K)
+      (r : Img K), zoomByFactor fl pre order m cval im scalar zs = some r →
+        ∃ os, zoomOutShape fl im.shape (zoomFactors im.shape.length scalar zs) = some os ∧
+          r = zoomGlue fl order m cval (pre im) os ∧ r.shape = os) := by
+  refine ⟨fun zs hl => zoomOutShape_length_ne fl shape zs hl, fun zs hl hz => zoomOutShape_nonneg h shape zs hl hz,
+    fun zs os hs => (zoomOutShape_some fl shape zs os hs).2, ?_, fun s z z' hz => zoomOutLen_mono h s z z' hz,
+    ?_, fun ks hl => zoomOutShape_nat h shape ks hl, ?_⟩
+  · intro s z hz
+    exact (truncI_bounds h ((s : K) * z)).1 (mul_nonneg (Nat.cast_nonneg s) hz)
+  · simp only [zoomFactors, if_true]
+    exact zoomOutShape_unit h shape
+  · intro pre order m cval im scalar zs r hr
+    unfold zoomByFactor at hr
+    cases hs : zoomOutShape fl im.shape (zoomFactors im.shape.length scalar zs) with
+    | none => rw [hs] at hr; cases hr
+    | some os =>
+      rw [hs] at hr
+      simp only [Option.some.injEq] at hr
+      subst hr
+      exact ⟨os, rfl, rfl, rfl⟩
+
+/-- non-vacuity: over ℚ with the true floor, a `3 × 4` array zoomed by `(3/2, 1/2)` gets the shape `(4, 2)`, by `−1/2`
+the call raises, and the length 49 with the factor `1/49` gives 1 over ℚ (the double product `49·(1/49)` is below 1:
+the defect `5b53411` of `imresize` was a floating-point effect) -/
+example : zoomOutShape (fun z : ℚ => ⌊z⌋) [3, 4] [3 / 2, 1 / 2] = some [4, 2] ∧
+    zoomOutShape (fun z : ℚ => ⌊z⌋) [3] [-1 / 2] = none ∧
+    zoomOutShape (fun z : ℚ => ⌊z⌋) [49] [1 / 49] = some [1] := by
+  have fl0 : ∀ (q : ℚ) (n : Int), (n : ℚ) ≤ q → q < (n : ℚ) + 1 → ⌊q⌋ = n := fun q n h0 h1 => by
+    rw [Int.floor_eq_iff]; exact ⟨h0, h1⟩
+  have l1 : zoomOutLen (fun z : ℚ => ⌊z⌋) 3 (3 / 2) = 4 := by
+    unfold zoomOutLen
+    rw [truncI_nonneg _ _ (by norm_num)]
+    exact fl0 _ 4 (by norm_num) (by norm_num)
+  have l2 : zoomOutLen (fun z : ℚ => ⌊z⌋) 4 (1 / 2) = 2 := by
+    unfold zoomOutLen
+    rw [truncI_nonneg _ _ (by norm_num)]
+    exact fl0 _ 2 (by norm_num) (by norm_num)
+  have l3 : zoomOutLen (fun z : ℚ => ⌊z⌋) 3 (-1 / 2) = -1 := by
+    unfold zoomOutLen
+    rw [truncI_neg _ _ (by norm_num)]
+    have : ⌊-(((3 : Nat) : ℚ) * (-1 / 2))⌋ = 1 := fl0 _ 1 (by norm_num) (by norm_num)
+    simp only [this]
+  have l4 : zoomOutLen (fun z : ℚ => ⌊z⌋) 49 (1 / 49) = 1 := by
+    unfold zoomOutLen
+    rw [truncI_nonneg _ _ (by norm_num)]
+    exact fl0 _ 1 (by norm_num) (by norm_num)
+  refine ⟨?_, ?_, ?_⟩
+  · simp only [zoomOutShape, l1, l2]; decide
+  · simp only [zoomOutShape, l3]; decide
+  · simp only [zoomOutShape, l4]; decide
+
+/-- **C18 (integer images: the stored value is the interpolated value truncated toward zero).** `resize_to` on an
+image of an integer dtype (`resizeToDT`: `out = np.empty(nsize, dtype=im.dtype)`, `zoom` in `float64`, then
+`o_out[:] = out[:]`) raises exactly when `resize_to` does, returns exactly the requested shape, and every stored entry
+is `castToInt` of the `float64` entry of `resize_to`'s result: (1) an integer value inside the dtype's range is stored
+unchanged — with the interpolation theorems: corners, unit zoom and integer ratios are exact over a field; (2) any
+other value `v` is replaced by the integer between 0 and `v` less than one away from it (`int(v)`), so the statement's
+"reproduces the samples" holds on integer images only up to that truncation — in floating point a corner value
+`2.9999999999999996` is stored as 2 (observed; integer arrays are outside the statement's quantifier). -/
+theorem C18_integer_dtype_truncation {K : Type} [Field K] [LinearOrder K] [IsStrictOrderedRing K]
+    {fl : K → Int} (h : IsFloor fl) (pre : Img K → Img K) (order : Nat) (dt : DT) (im : Img K)
+    (nsize : List Nat) :
+    (resizeToDT fl pre order dt im nsize = none ↔ nsize.length ≠ im.shape.length) ∧
+    (∀ r, resizeToDT fl pre order dt im nsize = some r →
+      r.shape = nsize ∧
+      r.data = (zoomGlue fl order .constant 0 (pre im) nsize).data.map (castToInt fl dt)) ∧
+    (∀ n : Int, dt.lo ≤ n → n ≤ dt.hi → castToInt fl dt (n : K) = some n) ∧
+    (∀ (v : K) (t : Int), castToInt fl dt v = some t →
+      dt.lo ≤ t ∧ t ≤ dt.hi ∧
+      (0 ≤ v → 0 ≤ t ∧ (t : K) ≤ v ∧ v < (t : K) + 1) ∧ (v ≤ 0 → t ≤ 0 ∧ v ≤ (t : K) ∧ (t : K) - 1 < v)) := by
+  refine ⟨?_, ?_, fun n hlo hhi => castToInt_int h dt n hlo hhi, ?_⟩
+  · unfold resizeToDT
+    by_cases hl : nsize.length = im.shape.length
+    · rw [resizeTo_some fl pre order im nsize hl]; simp [hl]
+    · rw [resizeTo_none fl pre order im nsize hl]; simp [hl]
+  · intro r hr
+    unfold resizeToDT at hr
+    by_cases hl : nsize.length = im.shape.length
+    · rw [resizeTo_some fl pre order im nsize hl] at hr
+      simp only [Option.some.injEq] at hr
+      subst hr
+      exact ⟨rfl, rfl⟩
+    · rw [resizeTo_none fl pre order im nsize hl] at hr
+      cases hr
+  · intro v t hc
+    obtain ⟨rfl, hlo, hhi⟩ := castToInt_some fl dt v t hc
+    exact ⟨hlo, hhi, (truncI_bounds h v).1, (truncI_bounds h v).2⟩
+
+/-- non-vacuity: over ℚ, `uint8`: `5/2` is stored as 2, `−1/3` as 0, 255 as 255, and `256` is outside the range -/
+example : castToInt (fun z : ℚ => ⌊z⌋) (dtU 8) (5 / 2) = some 2 ∧ castToInt (fun z : ℚ => ⌊z⌋) (dtU 8) (-1 / 3) = some 0 ∧
+    castToInt (fun z : ℚ => ⌊z⌋) (dtU 8) 255 = some 255 ∧ castToInt (fun z : ℚ => ⌊z⌋) (dtU 8) 256 = none := by
+  have fl0 : ∀ (q : ℚ) (n : Int), (n : ℚ) ≤ q → q < (n : ℚ) + 1 → ⌊q⌋ = n := fun q n h0 h1 => by
+    rw [Int.floor_eq_iff]; exact ⟨h0, h1⟩
+  have t1 : truncI (fun z : ℚ => ⌊z⌋) (5 / 2) = 2 := by
+    rw [truncI_nonneg _ _ (by norm_num)]; exact fl0 _ 2 (by norm_num) (by norm_num)
+  have t2 : truncI (fun z : ℚ => ⌊z⌋) (-1 / 3) = 0 := by
+    rw [truncI_neg _ _ (by norm_num)]
+    have : ⌊-(-1 / 3 : ℚ)⌋ = 0 := fl0 _ 0 (by norm_num) (by norm_num)
+    simp only [this]; rfl
+  have t3 : truncI (fun z : ℚ => ⌊z⌋) 255 = 255 := by
+    rw [truncI_nonneg _ _ (by norm_num)]; exact fl0 _ 255 (by norm_num) (by norm_num)
+  have t4 : truncI (fun z : ℚ => ⌊z⌋) 256 = 256 := by
+    rw [truncI_nonneg _ _ (by norm_num)]; exact fl0 _ 256 (by norm_num) (by norm_num)
+  refine ⟨?_, ?_, ?_, ?_⟩
+  · simp only [castToInt, t1]; decide
+  · simp only [castToInt, t2]; decide
+  · simp only [castToInt, t3]; decide
+  · simp only [castToInt, t4]; decide
+
+/-- **C18 (the prefilter the driver runs is the separable prefilter of the theorems).** `splineFilterP`, `filterAxisP`,
+`filterLineP` (`Model/C18.lean`) are the array loop of `interpolate.spline_filter` / `spline_filter1d`, polymorphic in
+the scalar type; the driver's `splineFilter order` **is** `splineFilterP (filterLineP (poleWeight (poles order))
+(poles order) (iniCode cutLen pow))` at `Float` for every order > 1 (last conjunct, by unfolding). Over any field, for
+every weight `w`, list of poles `ps`, shape, rank and every initialisation rule that reads only the line (`IniLocal`;
+the code's rule `iniCode cut pw` — truncated sum below the cut, closed form otherwise — is local whatever `cut` and `pw`
+are): the result has the input's shape and at **every** position inside the array it holds
+`prefilterNd (lineFilterL w ps ini)` of the input samples — axis 0 first, then axis 1, …, every line replaced by
+`line·w` run through the causal/anti-causal recursions of every pole (`onePole`), axes of length ≤ 1 left alone. So the
+hypothesis `hdata` of the interpolation theorems is what the driver's own prefilter establishes. -/
+theorem C18_spline_filter_is_prefilterNd {K : Type} [Field K] [LinearOrder K] [IsStrictOrderedRing K]
+    (w : K) (ps : List K) (im : Img K) :
+    (∀ ini : K → Nat → (Nat → K) → K, IniLocal ini →
+      (splineFilterP (filterLineP w ps ini) im).shape = im.shape ∧
+      ∀ p, inside im.shape p = true →
+        (splineFilterP (filterLineP w ps ini) im).getD p 0
+          = prefilterNd (lineFilterL w ps ini) im.shape (fun q => im.getD q 0) p) ∧
+    (∀ (cut : K → Int) (pw : K → Nat → K), IniLocal (iniCode cut pw)) ∧
+    (∀ (F : Array K → Array K) (axis : Nat) (p : List Int), inside im.shape p = true →
+      (filterAxisP F im axis).shape = im.shape ∧
+      (filterAxisP F im axis).getD p 0
+        = if im.shape.getD axis 1 ≤ 1 then im.getD p 0
+          else (F (lineOf im axis p (im.shape.getD axis 1))).getD (p.getD axis 0).toNat 0) :=
+  ⟨fun ini hini => splineFilterP_eq_prefilterNd w ps ini hini im, fun cut pw => iniCode_local cut pw,
+    fun F axis p hin => ⟨filterAxisP_shape F im axis, by
+      rw [filterAxisP_getD F im axis p hin]
+      unfold axisFn flOf
+      by_cases hl : im.shape.getD axis 1 ≤ 1
+      · simp only [hl, if_true]; rw [set_getD_self im.shape p axis hin]
+      · simp only [hl, if_false, lineOf, Nat.cast_zero]⟩⟩
+
+/-- non-vacuity: over ℚ, one (non-root) pole `1/2`, weight 2, initial value `line[0]` (a local rule): the array loop
+on the `2 × 1` image `[[1],[2]]` filters the first axis (`7/2` at `(0,0)`) and leaves the axis of length 1 alone -/
+example : (splineFilterP (filterLineP (2 : ℚ) [1 / 2] (fun _ _ s => s 0)) { shape := [2, 1], data := #[1, 2] }).getD
+    [0, 0] 0 = prefilterNd (lineFilterL (2 : ℚ) [1 / 2] (fun _ _ s => s 0)) [2, 1]
+      (fun q => ({ shape := [2, 1], data := #[1, 2] } : Img ℚ).getD q 0) [0, 0] ∧
+    IniLocal (fun (_ : ℚ) (_ : Nat) (s : Nat → ℚ) => s 0) := by
+  have hloc : IniLocal (fun (_ : ℚ) (_ : Nat) (s : Nat → ℚ) => s 0) := fun z len s s' hlen h => h 0 (by omega)
+  exact ⟨(splineFilterP_eq_prefilterNd (2 : ℚ) [1 / 2] _ hloc { shape := [2, 1], data := #[1, 2] }).2 [0, 0] rfl, hloc⟩
+
+/-- **C18 (the interpolation property of what the driver computes, orders 2–5, any rank, any mode, sources anywhere).**
+The chain closed: let `coeffs = splineFilterP (filterLineP w ps (iniCode cut pw)) im` — the array computation the
+driver's `spline_filter` runs (`C18_spline_filter_is_prefilterNd`), with exact poles and their weight (order 2:
+`ps = [z₁]`, `z₁² + 6z₁ + 1 = 0`, `w = 8`; order 3: `z₁² + 4z₁ + 1 = 0`, `w = 6`; order 4: `ps = [z₁, z₂]`,
+`λ₁+λ₂ = 76`, `λ₁λ₂ = 228`, `w = 384`; order 5: `26`, `64`, `120`), on lines where the code uses its closed-form
+initialisation (`cut z ≥ len` for every pole and axis, `pw z n = zⁿ`; every axis has one sample — it is then left
+alone by the prefilter and every knot folds to it — or more; no axis is empty). Then at
+every output position `p` of `zoom_shift` on `coeffs` (any shifts / zoom factors) whose mapped coordinates are an
+integer vector `js`, the result is the **input sample** `im[js']` at the position the border rule of the mode assigns to
+`js` (`js' = js` inside the array), or `cval` when the mode flags it: zero shift and unit zoom return the input,
+integer shifts are exact translations with the border rule in vacated pixels, corners go to corners — for the composite
+`spline_filter` + `zoom_shift` as the driver runs it. Not covered: approximate floating-point poles / `pow`, the
+truncated initial sum on long lines (`C18_prefilter_truncation_bound`). -/
+theorem C18_interpolation_property_driver {K : Type} [Field K] [LinearOrder K] [IsStrictOrderedRing K]
+    {fl : K → Int} (h : IsFloor fl) (m : Mode) (cval : K) (order : Nat) (z1 z2 l1 l2 w : K) (ps : List K)
+    (hord : (order = 2 ∧ ps = [z1] ∧ l1 = 6 ∧ w = 8) ∨ (order = 3 ∧ ps = [z1] ∧ l1 = 4 ∧ w = 6) ∨
+      (order = 4 ∧ ps = [z1, z2] ∧ l1 + l2 = 76 ∧ l1 * l2 = 228 ∧ w = 384) ∨
+      (order = 5 ∧ ps = [z1, z2] ∧ l1 + l2 = 26 ∧ l1 * l2 = 64 ∧ w = 120))
+    (h1 : z1 * z1 + l1 * z1 + 1 = 0) (h2 : z2 * z2 + l2 * z2 + 1 = 0)
+    (hz1 : z1 * z1 - 1 ≠ 0) (hz2 : z2 * z2 - 1 ≠ 0)
+    (cut : K → Int) (pw : K → Nat → K) (im : Img K)
+    (hshape : ∀ len ∈ im.shape, 0 < len)
+    (hcut : ∀ len ∈ im.shape, 2 ≤ len → ∀ z ∈ ps, ¬ cut z < (len : Int))
+    (hpw : ∀ len ∈ im.shape, 2 ≤ len → ∀ z ∈ ps, pw z (len - 1) = z ^ (len - 1))
+    (hP : ∀ len ∈ im.shape, 2 ≤ len → ∀ z ∈ ps, 1 - z ^ (len - 1) * z ^ (len - 1) ≠ 0)
+    (shifts zooms : List (Option K)) (p js : List Int) (hl : js.length = im.shape.length)
+    (hc : coordsOf im.shape p shifts zooms = js.map fun (j : Int) => (j : K)) :
+    pixel fl order m cval (splineFilterP (filterLineP w ps (iniCode cut pw)) im) shifts zooms p
+      = match specPos m im.shape js with
+        | some js' => im.getD js' 0
+        | none => cval := by
+  obtain ⟨hs, hg⟩ := splineFilterP_eq_prefilterNd w ps (iniCode cut pw) (iniCode_local cut pw) im
+  have hz0 : ∀ (z l : K), z * z + l * z + 1 = 0 → z ≠ 0 := by
+    rintro z l hz rfl
+    simp at hz
+  rcases hord with ⟨rfl, rfl, rfl, rfl⟩ | ⟨rfl, rfl, rfl, rfl⟩ | ⟨rfl, rfl, hsum, hprod, rfl⟩ |
+    ⟨rfl, rfl, hsum, hprod, rfl⟩
+  · have := C18_interpolation_property_border h m cval 2 6 z1 (Or.inl ⟨rfl, rfl⟩) h1 hz1 (iniCode cut pw z1)
+      (splineFilterP (filterLineP 8 [z1] (iniCode cut pw)) im)
+      (by rw [hs]; intro len hl'; have := hshape len hl'; omega)
+      (by rw [hs]; intro len hl' hlen s
+          exact iniCode_mirrorInit cut pw z1 (hz0 z1 6 h1) len hlen
+            (hcut len hl' hlen z1 (by simp)) (hpw len hl' hlen z1 (by simp)) (hP len hl' hlen z1 (by simp)) s)
+      (fun q => im.getD q 0)
+      (by rw [hs]; intro pos hpos; rw [hg pos hpos, lineFilterL_single]; norm_num)
+      shifts zooms p js (by rw [hs]; exact hl) (by rw [hs]; exact hc)
+    rw [hs] at this
+    exact this
+  · have := C18_interpolation_property_border h m cval 3 4 z1 (Or.inr ⟨rfl, rfl⟩) h1 hz1 (iniCode cut pw z1)
+      (splineFilterP (filterLineP 6 [z1] (iniCode cut pw)) im)
+      (by rw [hs]; intro len hl'; have := hshape len hl'; omega)
+      (by rw [hs]; intro len hl' hlen s
+          exact iniCode_mirrorInit cut pw z1 (hz0 z1 4 h1) len hlen
+            (hcut len hl' hlen z1 (by simp)) (hpw len hl' hlen z1 (by simp)) (hP len hl' hlen z1 (by simp)) s)
+      (fun q => im.getD q 0)
+      (by rw [hs]; intro pos hpos; rw [hg pos hpos, lineFilterL_single]; norm_num)
+      shifts zooms p js (by rw [hs]; exact hl) (by rw [hs]; exact hc)
+    rw [hs] at this
+    exact this
+  · have := C18_interpolation_property_border_order4_5 h m cval 4 z1 z2 l1 l2 384
+      (Or.inl ⟨rfl, hsum, hprod, rfl⟩) h1 h2 hz1 hz2 (iniCode cut pw)
+      (splineFilterP (filterLineP 384 [z1, z2] (iniCode cut pw)) im)
+      (by rw [hs]; intro len hl'; have := hshape len hl'; omega)
+      (by rw [hs]; intro len hl' hlen z hz s
+          rcases hz with rfl | rfl
+          · exact iniCode_mirrorInit cut pw z (hz0 z l1 h1) len hlen
+              (hcut len hl' hlen z (by simp)) (hpw len hl' hlen z (by simp)) (hP len hl' hlen z (by simp)) s
+          · exact iniCode_mirrorInit cut pw z (hz0 z l2 h2) len hlen
+              (hcut len hl' hlen z (by simp)) (hpw len hl' hlen z (by simp)) (hP len hl' hlen z (by simp)) s)
+      (fun q => im.getD q 0)
+      (by rw [hs]; intro pos hpos; rw [hg pos hpos])
+      shifts zooms p js (by rw [hs]; exact hl) (by rw [hs]; exact hc)
+    rw [hs] at this
+    exact this
+  · have := C18_interpolation_property_border_order4_5 h m cval 5 z1 z2 l1 l2 120
+      (Or.inr ⟨rfl, hsum, hprod, rfl⟩) h1 h2 hz1 hz2 (iniCode cut pw)
+      (splineFilterP (filterLineP 120 [z1, z2] (iniCode cut pw)) im)
+      (by rw [hs]; intro len hl'; have := hshape len hl'; omega)
+      (by rw [hs]; intro len hl' hlen z hz s
+          rcases hz with rfl | rfl
+          · exact iniCode_mirrorInit cut pw z (hz0 z l1 h1) len hlen
+              (hcut len hl' hlen z (by simp)) (hpw len hl' hlen z (by simp)) (hP len hl' hlen z (by simp)) s
+          · exact iniCode_mirrorInit cut pw z (hz0 z l2 h2) len hlen
+              (hcut len hl' hlen z (by simp)) (hpw len hl' hlen z (by simp)) (hP len hl' hlen z (by simp)) s)
+      (fun q => im.getD q 0)
+      (by rw [hs]; intro pos hpos; rw [hg pos hpos])
+      shifts zooms p js (by rw [hs]; exact hl) (by rw [hs]; exact hc)
+    rw [hs] at this
+    exact this
+
+/-- **C18 (the `Float` driver instantiates the polymorphic prefilter).** What the native driver runs for
+`spline_filter` (`kind=sf`, and inside every `kind=zs` / `rs` / `rsi` line with a prefilter) is, for every order > 1,
+the polymorphic array loop `splineFilterP (filterLineP weight poles rule)` at `Float` with the code's `poles order`,
+their `poleWeight`, and the code's initialisation rule `iniCode cutLen pow`; `spline_filter1d` along one axis is
+`filterAxisP` of the same line filter; orders ≤ 1 return the input. So `C18_spline_filter_is_prefilterNd` and
+`C18_interpolation_property_driver` speak about the definitions the driver executes (instantiated at an exact field). -/
+theorem C18_driver_prefilter_instance (order : Nat) (im : Img Float) :
+    letI : NatCast Float := ⟨Float.ofNat⟩
+    letI : IntCast Float := ⟨Float.ofInt⟩
+    (1 < order → splineFilter order im
+      = splineFilterP (filterLineP (poleWeight (poles order)) (poles order)
+          (iniCode cutLen (fun p n => Float.pow p (Float.ofNat n)))) im) ∧
+    (order ≤ 1 → splineFilter order im = im) ∧
+    (∀ axis, filterAxis order im axis
+      = filterAxisP (filterLineP (poleWeight (poles order)) (poles order)
+          (iniCode cutLen (fun p n => Float.pow p (Float.ofNat n)))) im axis) := by
+  refine ⟨?_, ?_, fun axis => rfl⟩
+  · intro ho
+    unfold splineFilter
+    rw [if_neg (by omega)]
+    rfl
+  · intro ho
+    unfold splineFilter
+    rw [if_pos ho]
+
+/-- non-vacuity: the driver's prefilter leaves an order-1 request alone and keeps the shape for order 3 -/
+example : (splineFilter 1 { shape := [2], data := #[1.0, 2.0] }).shape = [2] ∧
+    (filterAxis 3 { shape := [1], data := #[1.0] } 0).shape = [1] := by
+  constructor <;> rfl
+
+/-- non-vacuity of the pole hypotheses of the interpolation theorems: over ℝ the code's poles `√8 − 3` (order 2) and
+`√3 − 2` (order 3) are exact roots of `z² + 6z + 1` / `z² + 4z + 1`, different from 0 and from ±1 -/
+example : (∃ z : ℝ, z * z + 6 * z + 1 = 0 ∧ z * z - 1 ≠ 0 ∧ z ≠ 0) ∧
+    (∃ z : ℝ, z * z + 4 * z + 1 = 0 ∧ z * z - 1 ≠ 0 ∧ z ≠ 0) := by
+  have sq : ∀ a : ℝ, 0 ≤ a → Real.sqrt a * Real.sqrt a = a := fun a ha => Real.mul_self_sqrt ha
+  have lt : ∀ a b : ℝ, 0 ≤ a → a < b → Real.sqrt a < Real.sqrt b := fun a b ha hab => Real.sqrt_lt_sqrt ha hab
+  have s4 : Real.sqrt 4 = 2 := by
+    rw [show (4 : ℝ) = 2 ^ 2 by norm_num, Real.sqrt_sq (by norm_num)]
+  have s9 : Real.sqrt 9 = 3 := by
+    rw [show (9 : ℝ) = 3 ^ 2 by norm_num, Real.sqrt_sq (by norm_num)]
+  have s1 : Real.sqrt 1 = 1 := Real.sqrt_one
+  constructor
+  · have h := sq 8 (by norm_num)
+    have h2 : (2 : ℝ) < Real.sqrt 8 := by rw [← s4]; exact lt 4 8 (by norm_num) (by norm_num)
+    have h3 : Real.sqrt 8 < 3 := by rw [← s9]; exact lt 8 9 (by norm_num) (by norm_num)
+    refine ⟨Real.sqrt 8 - 3, by nlinarith [h], ?_, by linarith⟩
+    intro e
+    nlinarith [h, h2, h3]
+  · have h := sq 3 (by norm_num)
+    have h2 : (1 : ℝ) < Real.sqrt 3 := by rw [← s1]; exact lt 1 3 (by norm_num) (by norm_num)
+    have h3 : Real.sqrt 3 < 2 := by rw [← s4]; exact lt 3 4 (by norm_num) (by norm_num)
+    refine ⟨Real.sqrt 3 - 2, by nlinarith [h], ?_, by linarith⟩
+    intro e
+    nlinarith [h, h2, h3]
+
+/-- **C18 (zero shift and unit zoom return the input — for the driver's composite, orders 2–5, any rank, any mode).**
+The first clause of the statement for the spline orders. Under the hypotheses of `C18_interpolation_property_driver`
+(exact poles and weight, lines on which the code uses its closed-form initialisation, no empty axis) let `coeffs = splineFilterP (filterLineP w ps (iniCode cut pw)) im` be what the driver's `spline_filter`
+computes. Then `shift(im, 0)` — `shiftGlue` of `coeffs` with the zero shift vector — and `zoom(im, out of the same
+shape)` — `zoomGlue` of `coeffs` onto `im.shape` — have the input's shape and hold the input sample `im[p]` at **every**
+position `p` of the array, whatever the border mode. -/
+theorem C18_driver_zero_shift_unit_zoom_identity {K : Type} [Field K] [LinearOrder K] [IsStrictOrderedRing K]
+    {fl : K → Int} (h : IsFloor fl) (m : Mode) (cval : K) (order : Nat) (z1 z2 l1 l2 w : K) (ps : List K)
+    (hord : (order = 2 ∧ ps = [z1] ∧ l1 = 6 ∧ w = 8) ∨ (order = 3 ∧ ps = [z1] ∧ l1 = 4 ∧ w = 6) ∨
+      (order = 4 ∧ ps = [z1, z2] ∧ l1 + l2 = 76 ∧ l1 * l2 = 228 ∧ w = 384) ∨
+      (order = 5 ∧ ps = [z1, z2] ∧ l1 + l2 = 26 ∧ l1 * l2 = 64 ∧ w = 120))
+    (h1 : z1 * z1 + l1 * z1 + 1 = 0) (h2 : z2 * z2 + l2 * z2 + 1 = 0)
+    (hz1 : z1 * z1 - 1 ≠ 0) (hz2 : z2 * z2 - 1 ≠ 0)
+    (cut : K → Int) (pw : K → Nat → K) (im : Img K)
+    (hshape : ∀ len ∈ im.shape, 0 < len)
+    (hcut : ∀ len ∈ im.shape, 2 ≤ len → ∀ z ∈ ps, ¬ cut z < (len : Int))
+    (hpw : ∀ len ∈ im.shape, 2 ≤ len → ∀ z ∈ ps, pw z (len - 1) = z ^ (len - 1))
+    (hP : ∀ len ∈ im.shape, 2 ≤ len → ∀ z ∈ ps, 1 - z ^ (len - 1) * z ^ (len - 1) ≠ 0)
+    (p : List Int) (hin : inside im.shape p = true) :
+    let coeffs := splineFilterP (filterLineP w ps (iniCode cut pw)) im
+    (shiftGlue fl order m cval coeffs (im.shape.map fun _ => (0 : K))).shape = im.shape ∧
+    (shiftGlue fl order m cval coeffs (im.shape.map fun _ => (0 : K))).getD p 0 = im.getD p 0 ∧
+    (zoomGlue fl order m cval coeffs im.shape).shape = im.shape ∧
+    (zoomGlue fl order m cval coeffs im.shape).getD p 0 = im.getD p 0 := by
+  intro coeffs
+  have hs : coeffs.shape = im.shape :=
+    (splineFilterP_eq_prefilterNd w ps (iniCode cut pw) (iniCode_local cut pw) im).1
+  have hlen : p.length = im.shape.length := (inside_length im.shape p hin).symm
+  have key : ∀ shifts zooms, coordsOf im.shape p shifts zooms = p.map (fun (j : Int) => (j : K)) →
+      pixel fl order m cval coeffs shifts zooms p = im.getD p 0 := by
+    intro shifts zooms hc
+    have := C18_interpolation_property_driver h m cval order z1 z2 l1 l2 w ps hord h1 h2 hz1 hz2 cut pw im hshape
+      hcut hpw hP shifts zooms p p hlen hc
+    rw [specPos_of_inside m im.shape p hin] at this
+    exact this
+  refine ⟨?_, ?_, rfl, ?_⟩
+  · show coeffs.shape = im.shape
+    exact hs
+  · unfold shiftGlue zoomShift
+    rw [hs, tabulate_getD' _ _ _ _ hin]
+    exact key _ _ (coordsOf_zero_shift im.shape im.shape p hin rfl)
+  · unfold zoomGlue zoomShift
+    rw [hs, tabulate_getD' _ _ _ _ hin]
+    exact key _ _ (coordsOf_unit_zoom im.shape p hin)
+
+/-- non-vacuity: `(1, 0)` is a position of a `2 × 2` array, in `constant` mode the border rule leaves it where it is, and
+the zero shift / unit zoom coordinates of that position are the position itself (over ℚ) -/
+example : inside [2, 2] [1, 0] = true ∧ specPos .constant [2, 2] [1, 0] = some [1, 0] ∧
+    coordsOf [2, 2] [1, 0] (([2, 2].map fun _ => (0 : ℚ)).map fun s => some (-s)) (([2, 2].map fun _ => (0 : ℚ)).map fun _ => none)
+      = [1, 0] ∧
+    coordsOf [2, 2] [1, 0] ([2, 2].map fun _ => (none : Option ℚ))
+      (([2, 2].zip [2, 2]).map fun io => some (zoomFactor io.1 io.2 : ℚ)) = [1, 0] := by
+  refine ⟨by decide, by decide, ?_, ?_⟩
+  · have := coordsOf_zero_shift (K := ℚ) [2, 2] [2, 2] [1, 0] (by decide) rfl
+    simpa using this
+  · have := coordsOf_unit_zoom (K := ℚ) [2, 2] [1, 0] (by decide)
+    simpa using this
